@@ -281,3 +281,91 @@ Proof.
   - unfold dpos. rewrite nth_vzip by exact H. lia.
   - rewrite nth_overflow; [lia|]. unfold dpos. now rewrite vzip_length.
 Qed.
+
+(* ------------------------------------------------------------------ the other profiles *)
+(* aggregated profile with matching statistics: that usage plus the same per-pod terms *)
+Lemma agg_estimate cfg m ut pods t d u i :
+  t <> 0 -> target_agg m t d = Some u -> (i < dims)%nat ->
+  nth i (est_of m (rebuild cfg m ut pods) false t d) 0
+  = nth i u 0 + fold_right Z.add 0 (map (fun p => nth i (node_delta_term m ut (snd p)) 0) pods).
+Proof.
+  intros Ht Hu Hi. unfold est_of. apply Z.eqb_neq in Ht. rewrite Ht, Hu.
+  rewrite nth_vadd by (unfold vadd; rewrite vzip_length; exact Hi).
+  rewrite nth_vadd by (cbn; exact Hi).
+  rewrite rebuild_nodeDelta, nth_vsum_from by (cbn; exact Hi).
+  rewrite map_map.
+  replace (nth i vzero 0) with 0 by (unfold vzero, dims; destruct i as [|[|[|i]]]; reflexivity).
+  lia.
+Qed.
+
+(* prod profile: usage of the pods that both claim to be prod and are reported as prod
+   (+ system usage when configured), plus for every prod pod its estimate in excess of that
+   usage — in full when the pod is not reported as prod *)
+Definition prod_usage_term (m : metric) (pi : pinfo) : vec :=
+  let key := p_key (pi_pod pi) in
+  if is_prod (pi_pod pi) && prod_reported m key then ovec (pod_usage m key) else [].
+Definition prod_delta_term (m : metric) (ut : Z) (pi : pinfo) : vec :=
+  match pi_est pi with
+  | Some e =>
+    let key := p_key (pi_pod pi) in
+    let u := pod_usage m key in
+    if is_prod (pi_pod pi) then
+      (if negb (prod_reported m key) && is_some u then dpos e []
+       else if should m ut pi u then dpos e (ovec u) else [])
+    else []
+  | None => []
+  end.
+
+Lemma addall_prodUsage f l b :
+  s_prodUsage (addall f l b) = vsum_from (s_prodUsage b) (map (fun p => s_prodUsage (f (snd p))) l).
+Proof.
+  revert b. induction l as [|p l IH]; intro b; [reflexivity|].
+  cbn [addall fold_left map vsum_from]. fold (addall f l (sums_add b (f (snd p)))).
+  rewrite IH. reflexivity.
+Qed.
+Lemma addall_prodDelta f l b :
+  s_prodDelta (addall f l b) = vsum_from (s_prodDelta b) (map (fun p => s_prodDelta (f (snd p))) l).
+Proof.
+  revert b. induction l as [|p l IH]; intro b; [reflexivity|].
+  cbn [addall fold_left map vsum_from]. fold (addall f l (sums_add b (f (snd p)))).
+  rewrite IH. reflexivity.
+Qed.
+
+Lemma contrib_prodUsage m ut pi : s_prodUsage (contrib m ut pi) = prod_usage_term m pi.
+Proof. unfold contrib, prod_usage_term. destruct (pi_est pi); reflexivity. Qed.
+Lemma contrib_prodDelta m ut pi : s_prodDelta (contrib m ut pi) = prod_delta_term m ut pi.
+Proof.
+  unfold contrib, prod_delta_term. destruct (pi_est pi); [|reflexivity]. cbn [s_prodDelta].
+  destruct (is_prod (pi_pod pi)); cbn [andb]; [|reflexivity].
+  destruct (prod_reported m (p_key (pi_pod pi))); reflexivity.
+Qed.
+
+Lemma prod_estimate cfg m ut pods i :
+  (i < dims)%nat ->
+  nth i (est_of m (rebuild cfg m ut pods) true 0 0) 0
+  = nth i (s_prodUsage (base_sums cfg m)) 0
+    + fold_right Z.add 0 (map (fun p => nth i (prod_usage_term m (snd p)) 0) pods)
+    + fold_right Z.add 0 (map (fun p => nth i (prod_delta_term m ut (snd p)) 0) pods).
+Proof.
+  intro Hi. unfold est_of.
+  assert (Hb : length (s_prodUsage (base_sums cfg m)) = dims).
+  { unfold base_sums. destruct (m_info m) as [mi|]; [|reflexivity].
+    destruct (c_include_sys cfg); [|reflexivity]. cbn [s_prodUsage]. unfold vadd. now rewrite vzip_length. }
+  rewrite nth_vadd by (unfold vadd; rewrite vzip_length; exact Hi).
+  rewrite nth_vadd by (cbn; exact Hi).
+  rewrite !rebuild_addall, addall_prodUsage, addall_prodDelta.
+  rewrite !nth_vsum_from by (try rewrite Hb; cbn; exact Hi).
+  rewrite !map_map.
+  replace (nth i vzero 0) with 0 by (unfold vzero, dims; destruct i as [|[|[|i]]]; reflexivity).
+  cbn [base_sums s_prodDelta].
+  replace (nth i (s_prodDelta (base_sums cfg m)) 0) with 0
+    by (unfold base_sums; cbn [s_prodDelta]; unfold vzero, dims; destruct i as [|[|[|i]]]; reflexivity).
+  rewrite (map_ext (fun p => nth i (s_prodUsage (contrib m ut (snd p))) 0)
+                   (fun p => nth i (prod_usage_term m (snd p)) 0))
+    by (intro p; now rewrite contrib_prodUsage).
+  rewrite (map_ext (fun p => nth i (s_prodDelta (contrib m ut (snd p))) 0)
+                   (fun p => nth i (prod_delta_term m ut (snd p)) 0))
+    by (intro p; now rewrite contrib_prodDelta).
+  replace (nth i vzero 0) with 0 by (unfold vzero, dims; destruct i as [|[|[|i]]]; reflexivity).
+  lia.
+Qed.
